@@ -217,6 +217,12 @@ func tieProfiles(r *vlib.Rand) []vlib.AProf {
 			if v%3 == 0 {
 				s.Num = append(s.Num, vlib.ANLab{K: "bytes", V: []int64{int64(8 << uint(i%2))}, U: []string{"bytes"}})
 			}
+			if v%3 == 1 {
+				// several string and numeric label keys on one sample: every map the encoder walks has more than one key
+				s.Lab = append(s.Lab, vlib.ASLab{K: "zone", V: []string{"z"}}, vlib.ASLab{K: "app", V: []string{"a", "b"}})
+				s.Num = append(s.Num, vlib.ANLab{K: "bytes", V: []int64{16}, U: []string{"bytes"}}, vlib.ANLab{K: "align", V: []int64{8}, U: []string{"bytes"}},
+					vlib.ANLab{K: "request", V: []int64{int64(i)}, U: []string{""}}, vlib.ANLab{K: "latency", V: []int64{3}, U: []string{"ms"}})
+			}
 			if v >= 4 {
 				s.Locs = []vlib.ALoc{loc(m2, int64(7+i), fn(names[1+i%3], "w.c"), 5), callee, caller}
 			}
